@@ -183,6 +183,18 @@ static void keyed_hash_family(size_t keylen, size_t inlen, size_t outlen)
     gfree(k); gfree(in); gfree(cu); gfree(salt); gfree(out);
 }
 
+static uint8_t ct_store[64];
+static int ct_read(const ascon_storage_t *s, size_t off, unsigned char *data, size_t size)
+{
+    (void)s; memcpy(data, ct_store + off, size);
+    if (sec_pool) sec_take(data, size); else TAINT(data, size);      /* a stored seed is secret */
+    return (int)size;
+}
+static int ct_write(const ascon_storage_t *s, size_t off, const unsigned char *data, size_t size, int erase)
+{
+    (void)s; (void)erase; memcpy(ct_store + off, data, size); PUBLIC(ct_store, sizeof(ct_store)); return (int)size;
+}
+
 static void prng_family(size_t n)
 {
     ascon_random_state_t st;
@@ -195,8 +207,13 @@ static void prng_family(size_t n)
     ascon_random_fetch(&st, out, 32);
     ascon_random_reseed(&st);
     ascon_random_fetch(&st, out, n);
+    {   ascon_storage_t sto; int r1, r2;
+        memset(&sto, 0, sizeof(sto)); sto.page_size = 32; sto.erase_size = (n & 1) ? 32 : 0; sto.size = 64; sto.read = ct_read; sto.write = ct_write;
+        r1 = ascon_random_save_seed(&st, &sto); PUBLIC(&r1, sizeof(r1));
+        r2 = ascon_random_load_seed(&st, &sto); PUBLIC(&r2, sizeof(r2));
+        ascon_random_fetch(&st, out, 16); }
     ascon_random_free(&st);
-    ops += 7;
+    ops += 10;
     vf_distinct("ct|prng|n%zu", n);
     gfree(out); gfree(feed);
 }
